@@ -60,6 +60,7 @@ func checkC16(r *core.Run) {
 	}
 	c16Layouts(r, p, wo, lb)
 	c16Position(r, p, wo, lb)
+	c16RecordedCurrent(r, p, "R-C16-position", wo)
 	c16Locks(r, p)
 	c16Flags(r, p)
 	blockdbFlushDrains(r, p, "R-C16-flags")
@@ -782,6 +783,20 @@ func c16Sources(fn *ssa.Function, v ssa.Value, out map[string]bool, seen map[ssa
 				}
 			})
 			if len(vals) == 1 {
+				// the store has to come before the load in the life of the same object: a path from the store to
+				// the load that does not pass the object's allocation again
+				var store *ssa.Store
+				an.Instrs(fn, func(i ssa.Instruction) {
+					if st, ok := i.(*ssa.Store); ok && st.Val == vals[0] {
+						if fb, ok := st.Addr.(*ssa.FieldAddr); ok && fb.X == fa.X && fb.Field == fa.Field {
+							store = st
+						}
+					}
+				})
+				if al, isAl := fa.X.(*ssa.Alloc); isAl && store != nil && !c16StoreReachesLoad(store, x, al) {
+					out["unset:"+an.FieldNameOf(fa)] = true
+					return
+				}
 				c16Sources(fn, vals[0], out, seen)
 				return
 			}
@@ -869,6 +884,54 @@ func c16ResumePosition(r *core.Run, p *core.Program, rule string) {
 	})
 	if n == 0 {
 		bad = append(bad, "LoadBlockIndex never sets the append position from a record")
+	}
+	// the number of the data file to continue in: the greatest file number found in the records ([28:32])
+	nIdx := 0
+	an.Instrs(lb, func(i ssa.Instruction) {
+		st, ok := i.(*ssa.Store)
+		if !ok {
+			return
+		}
+		if f, ok := an.FieldOf(st.Addr); !ok || f != "lib/chain.BlockDB.maxdatfileidx" {
+			return
+		}
+		if _, isC := an.ConstOf(st.Val); isC {
+			return
+		}
+		nIdx++
+		src := map[string]bool{}
+		c16Sources(lb, st.Val, src, map[ssa.Value]bool{})
+		if got := an.TagList(src); got != "[28:32]" {
+			bad = append(bad, "the data file number to continue in, set at "+p.Pos(an.InstrPos(i))+", is taken from "+got+" instead of the record's file number [28:32]")
+		}
+		// ... and only when the record's file number exceeds the number known so far
+		okCmp := false
+		for _, dc := range an.DomConds(st.Block()) {
+			x, y, rel, ok := dc.Cmp()
+			if !ok {
+				continue
+			}
+			if rel == token.LSS {
+				x, y, rel = y, x, token.GTR
+			}
+			if fy, _ := an.FieldOf(loadAddr(y)); rel != token.GTR || fy != "lib/chain.BlockDB.maxdatfileidx" {
+				continue
+			}
+			sx := map[string]bool{}
+			c16Sources(lb, x, sx, map[ssa.Value]bool{})
+			if got := an.TagList(sx); got == "[28:32]" {
+				okCmp = true
+			} else {
+				bad = append(bad, "the test that raises the data file number compares "+got+" with the number known so far, instead of the record's file number [28:32]")
+				okCmp = true
+			}
+		}
+		if !okCmp {
+			bad = append(bad, "the data file number is raised without comparing the record's file number with the one known so far")
+		}
+	})
+	if nIdx == 0 {
+		bad = append(bad, "LoadBlockIndex never sets the data file number from a record")
 	}
 	r.Check(len(bad) == 0, rule, "resume-position/loader", p.Pos(lb.Pos()), fmt.Sprintf("%d assignment(s) of the append position while loading, each = record[40:48] + record[48:52]", n), strings.Join(bad, "; "))
 }
@@ -1069,4 +1132,178 @@ func c16RecordCounted(r *core.Run, p *core.Program, rule string, lb *ssa.Functio
 		}
 		r.Check(bad == "" && len(inc) > 0, rule, "load/record-counted", p.Pos(lb.Pos()), "every record read advances the mirrored index position by 136, also when the record is skipped", bad)
 	}
+}
+
+// c16RecordedCurrent: the writer records, in the index record and in the in-memory entry, where it put the
+// block: data file number, position in the data file, position of the index record.  Each is a copy of the
+// mirrored append position, and it must be the copy taken for THIS write: between the load that is recorded
+// and the write to the file, the mirrored position is not assigned (the roll-over to a new data file resets
+// the position and bumps the file number - a copy taken before it names a place in the previous file).
+func c16RecordedCurrent(r *core.Run, p *core.Program, rule string, wo *ssa.Function) {
+	const key = "append/recorded-position-current"
+	fileOf := map[string]string{"maxdatfilepos": "blockdata", "maxdatfileidx": "blockdata", "maxidxfilepos": "blockindx"}
+	// the writes
+	writes := map[string][]ssa.Instruction{}
+	for _, c := range an.CallsTo(wo, false, "(*os.File).Write") {
+		a := an.Atoms(c.Common().Args[0])
+		for _, f := range []string{"blockdata", "blockindx"} {
+			if a["field:lib/chain.BlockDB."+f] {
+				writes[f] = append(writes[f], c.(ssa.Instruction))
+			}
+		}
+	}
+	before := func(a, b ssa.Instruction) bool { // a strictly before b on some path
+		if a.Block() == b.Block() {
+			for _, i := range a.Block().Instrs {
+				if i == a {
+					return true
+				}
+				if i == b {
+					break
+				}
+			}
+			return reachesBlock2(a.Block(), b.Block())
+		}
+		return reachesBlock(a.Block(), b.Block())
+	}
+	recorded := func(v ssa.Value) bool { // flows into a PutUint* argument or a field of the in-memory entry
+		seen := map[ssa.Value]bool{}
+		var walk func(x ssa.Value, d int) bool
+		walk = func(x ssa.Value, d int) bool {
+			if seen[x] || d > 8 || x.Referrers() == nil {
+				return false
+			}
+			seen[x] = true
+			for _, ref := range *x.Referrers() {
+				switch u := ref.(type) {
+				case *ssa.Convert:
+					if walk(u, d+1) {
+						return true
+					}
+				case *ssa.ChangeType:
+					if walk(u, d+1) {
+						return true
+					}
+				case *ssa.Phi:
+					if walk(u, d+1) {
+						return true
+					}
+				case *ssa.Store:
+					if u.Val == x {
+						if f, ok := an.FieldOf(u.Addr); ok && strings.HasPrefix(f, "lib/chain.oneBl.") {
+							return true
+						}
+					}
+				case *ssa.Call:
+					if strings.HasPrefix(an.CallName(u), "(encoding/binary.littleEndian).PutUint") {
+						return true
+					}
+				}
+			}
+			return false
+		}
+		return walk(v, 0)
+	}
+	n := 0
+	var bad []string
+	an.Instrs(wo, func(i ssa.Instruction) {
+		ld, ok := i.(*ssa.UnOp)
+		if !ok || ld.Op != token.MUL {
+			return
+		}
+		f, ok := an.FieldOf(ld.X)
+		if !ok || !strings.HasPrefix(f, "lib/chain.BlockDB.") {
+			return
+		}
+		name := strings.TrimPrefix(f, "lib/chain.BlockDB.")
+		file, tracked := fileOf[name]
+		if !tracked || !recorded(ld) {
+			return
+		}
+		n++
+		an.Instrs(wo, func(j ssa.Instruction) {
+			st, ok := j.(*ssa.Store)
+			if !ok {
+				return
+			}
+			if g, ok := an.FieldOf(st.Addr); !ok || g != f {
+				return
+			}
+			for _, w := range writes[file] {
+				if before(i, j) && before(j, w) {
+					bad = append(bad, fmt.Sprintf("%s is copied at %s for the record, assigned at %s and only then the file is written (%s)", name, p.Pos(an.InstrPos(i)), p.Pos(an.InstrPos(j)), p.Pos(an.InstrPos(w))))
+				}
+			}
+		})
+	})
+	sort.Strings(bad)
+	r.Check(n >= 3 && len(bad) == 0 && len(writes["blockdata"]) > 0 && len(writes["blockindx"]) > 0, rule, key, p.Pos(wo.Pos()), fmt.Sprintf("%d recorded copies of the append positions, none assigned between the copy and the write", n),
+		fmt.Sprintf("the position recorded for a block is not the one it is written at (%d recorded copies): %s", n, strings.Join(bad, "; ")))
+}
+
+// reachesBlock2: b reaches itself again through a cycle.
+func reachesBlock2(from, to *ssa.BasicBlock) bool {
+	for _, s := range from.Succs {
+		if reachesBlock(s, to) {
+			return true
+		}
+	}
+	return false
+}
+
+// c16StoreReachesLoad: the store is executed before the load on some path that stays within one life of the
+// object (does not pass its allocation again).
+func c16StoreReachesLoad(st *ssa.Store, ld *ssa.UnOp, obj *ssa.Alloc) bool {
+	if st.Block() == ld.Block() {
+		for _, i := range st.Block().Instrs {
+			if i == ssa.Instruction(st) {
+				return true
+			}
+			if i == ssa.Instruction(ld) {
+				break
+			}
+		}
+	}
+	seen := map[*ssa.BasicBlock]bool{}
+	work := append([]*ssa.BasicBlock{}, st.Block().Succs...)
+	for len(work) > 0 {
+		b := work[len(work)-1]
+		work = work[:len(work)-1]
+		if seen[b] {
+			continue
+		}
+		seen[b] = true
+		if b == ld.Block() {
+			// reached before the allocation in this block?  the allocation precedes every use of the object
+			return b != obj.Block() || !c16AllocBefore(obj, ld)
+		}
+		if b == obj.Block() {
+			continue
+		}
+		work = append(work, b.Succs...)
+	}
+	return false
+}
+
+func c16AllocBefore(obj *ssa.Alloc, ld *ssa.UnOp) bool {
+	if obj.Block() != ld.Block() {
+		return false
+	}
+	for _, i := range obj.Block().Instrs {
+		if i == ssa.Instruction(obj) {
+			return true
+		}
+		if i == ssa.Instruction(ld) {
+			return false
+		}
+	}
+	return false
+}
+
+// loadAddr: the address a load reads from (through conversions), or nil.
+func loadAddr(v ssa.Value) ssa.Value {
+	if ld, ok := c17StripConv(v).(*ssa.UnOp); ok && ld.Op == token.MUL {
+		return ld.X
+	}
+	return nil
 }
